@@ -122,6 +122,52 @@ fn check_diff(case: &DecCase, p: &mut Probe) -> Check {
     Ok(())
 }
 
+/// any matrix (checks of degree 0 and 1, isolated variables) and any LLR (NaN and infinities
+/// included): the factory-built decoder and the directly built one must still behave alike, be it
+/// a result or a panic (the min*-type arithmetics reject checks of degree < 2 by contract)
+fn wild_strategy(_t: Tier) -> BoxedStrategy<DecCase> {
+    super::c03::any_matrix()
+        .prop_flat_map(|h| {
+            let n = h.cols;
+            let llr = prop_oneof![8 => any_llr(), 1 => Just(f64::NAN), 1 => Just(f64::INFINITY), 1 => Just(f64::NEG_INFINITY), 1 => Just(-f64::NAN)];
+            (shuffled(Just(h)), proptest::collection::vec(llr, n), limit_strategy())
+        })
+        .prop_map(|(h, llrs, limit)| DecCase { h, llrs: llrs.into_iter().map(Fx).collect(), limit })
+        .boxed()
+}
+
+fn check_wild(case: &DecCase, p: &mut Probe) -> Check {
+    let llrs = fx_vec(&case.llrs);
+    let hs = case.h.to_sparse();
+    let mut any_panic = false;
+    for name in NAMES {
+        let imp = name.parse::<DecoderImplementation>().map_err(|e| Fail::new("from_str", format!("{name}: {e}")))?;
+        // construction inside the guard: a panic at build time is behaviour too
+        let ra = guarded(|| build_factory(&imp, hs.clone()).decode(&llrs, case.limit));
+        let rb = guarded(|| build_direct(name, hs.clone()).unwrap().decode(&llrs, case.limit));
+        p.inner += 1;
+        match (&ra, &rb) {
+            (Ok(a), Ok(b)) => {
+                if a != b {
+                    return Err(Fail::new("factory-mismatch", format!("{name}: factory-built decoder returns {a:?}, the generic decoder built directly with the named arithmetic and schedule returns {b:?}")));
+                }
+            }
+            (Err(_), Err(_)) => any_panic = true,
+            (Err(e), Ok(b)) => return Err(Fail::new("factory-mismatch", format!("{name}: building / running the factory-built decoder panicked ({e}), the generic decoder built directly with the named arithmetic and schedule returns {b:?}"))),
+            (Ok(a), Err(e)) => return Err(Fail::new("factory-mismatch", format!("{name}: the factory-built decoder returns {a:?}, the generic decoder built directly panicked ({e})"))),
+        }
+    }
+    let low = case.h.row_lists().iter().any(|r| r.len() <= 1);
+    let nonfinite = llrs.iter().any(|x| !x.is_finite());
+    p.class_if(low, "check-of-degree<=1");
+    p.class_if(nonfinite, "non-finite-llr");
+    p.class_if(any_panic, "both-sides-panicked");
+    if low || nonfinite {
+        p.nontrivial();
+    }
+    Ok(())
+}
+
 fn separation_report(_c: &u8, p: &mut Probe) -> Check {
     let mut separated = 0;
     for i in 0..36 {
@@ -221,6 +267,14 @@ pub fn property() -> Property {
                 strategy,
                 check: check_diff,
                 health: &[("implementations-disagree", 0.30)],
+            }),
+            Box::new(Sub {
+                name: "differential-any-input",
+                rule: "the same differential outside the decoders' comfortable domain: any matrix 1..=8 x 1..=12 (checks of degree 0 and 1, isolated variables; shuffled insertion order), LLR components from the C01 catalogue or NaN / -NaN / +-infinity, limits {0,...,200}; per name the outcome (result, or a panic at construction or decoding time) of the factory-built decoder must equal that of the directly built one; non-trivial = a check of degree <= 1 or a non-finite LLR",
+                cases: |t| t.pick(30_000, 1_000_000),
+                strategy: wild_strategy,
+                check: check_wild,
+                health: &[("check-of-degree<=1", 0.30), ("non-finite-llr", 0.30)],
             }),
             Box::new(EnumSub {
                 name: "separation",
